@@ -185,11 +185,16 @@ def measure(tree, ref: Ref, radii, steps, nodes, want_volume, soma_ok):
 
 def compare(ctx, case, A, B, refA: Ref, refB: Ref, new_of_old, s, radii_margin):
     coordmax = max(float(np.abs(refA.X).max()) * max(s, 1.0), float(np.abs(refB.X).max()))
-    eps_pos = 2e-7 * (1 + coordmax)
+    moved = bool(case["rotate"] or case["translate"] or s != 1 or case["by"] == "library")
+    # a pure renumbering leaves every coordinate bit-identical: only summation order may differ
+    eps_pos = 2e-7 * (1 + coordmax) if moved else 0.0
     n = refA.n
+    extent = float(refB.d.max()) if refB.n > 1 else 1.0
+    kb = max((len(b) for b in refA.branches), default=1)
+    kp = max((len(p) for p in refA.paths), default=1)
 
     def len_tol(value, k):
-        return 8 * k * eps_pos + 4e-6 * abs(value) + 1e-6 * s
+        return 8 * k * eps_pos + 4e-6 * abs(value) + 2e-7 * extent
 
     def close(name, a, b, k=1, factor=s, mech=None):
         a, b = np.asarray(a, dtype=np.float64) * factor, np.asarray(b, dtype=np.float64)
@@ -207,8 +212,8 @@ def compare(ctx, case, A, B, refA: Ref, refB: Ref, new_of_old, s, radii_margin):
     close("Tree.length", A["length"], B["length"], n)
     close("length (front end)", A["length_fe"], B["length_fe"], n)
     ctx.count("length_compared")
-    close("branch_length", A["branch_length"], B["branch_length"], n)
-    close("path_length", A["path_length"], B["path_length"], n)
+    close("branch_length", A["branch_length"], B["branch_length"], kb)
+    close("path_length", A["path_length"], B["path_length"], kp)
     for k in ("tip_radial_distance", "furcation_radial_distance"):
         if k in A:
             close(k, A[k], B[k], 1)
